@@ -119,6 +119,33 @@ func solveAll(ctx *SMTCtx, obls []*Obligation, dir string, timeoutS int, workers
 						}
 					}
 				}
+				if ob.Result != "unsat" && ob.Result != "sat" && ob.Kind != "cover" {
+					// no answer: look for a candidate counterexample with the quantified assumptions
+					// dropped (fewer assumptions: a model is only a candidate, to be replayed)
+					rq := relaxQuery(text, false)
+					rqAll := relaxQuery(text, true)
+					var small strings.Builder
+					for _, t := range ob.CETerms {
+						if strings.HasSuffix(t.Label, ".len") || strings.HasSuffix(t.Label, "rangeindex") {
+							fmt.Fprintf(&small, "(assert (<= %s 3))\n", t.Term)
+						}
+					}
+					rf := file + ".relaxed.smt2"
+					for k, extra := range []string{small.String(), small.String(), ""} {
+						base := rq
+						if k > 0 {
+							base = rqAll
+						}
+						body := strings.Replace(base, "(check-sat)", extra+"(check-sat)", 1)
+						os.WriteFile(rf, []byte(body+gv.String()), 0o644)
+						if res, out, _ := runSolver(solvers[0], rf, 5); res == "sat" {
+							ob.Model = "candidate model (quantified assumptions dropped; not a proof of violation):\n" + modelSummary(ob, out)
+							ob.Candidate = true
+							break
+						}
+					}
+					os.Remove(rf)
+				}
 				ob.TimeS = time.Since(t0).Seconds()
 				if ob.Result == "unsat" {
 					os.Remove(file)
@@ -148,12 +175,107 @@ func modelSummary(ob *Obligation, out string) string {
 		return ""
 	}
 	body := strings.TrimSpace(out[i+1:])
-	if len(body) > 6000 {
-		body = body[:6000] + " ..."
+	vals := parseGetValue(body)
+	if len(body) > 3000 {
+		body = body[:3000] + " ..."
 	}
 	var sb strings.Builder
-	for _, t := range ob.CETerms {
-		fmt.Fprintf(&sb, "%s := %s\n", t.Label, t.Term)
+	if len(vals) == len(ob.CETerms) {
+		ob.CEValues = map[string]string{}
+		for i, t := range ob.CETerms {
+			ob.CEValues[t.Label] = vals[i]
+			fmt.Fprintf(&sb, "%s = %s\n", t.Label, vals[i])
+		}
+		return sb.String()
 	}
-	return sb.String() + body
+	return fmt.Sprintf("(model output could not be paired with %d labels)\n", len(ob.CETerms)) + body
+}
+
+// parseGetValue parses "((term value) (term value) ...)" and returns the value texts.
+func parseGetValue(s string) []string {
+	i := strings.Index(s, "(")
+	if i < 0 {
+		return nil
+	}
+	pos := i + 1
+	skip := func() {
+		for pos < len(s) && (s[pos] == ' ' || s[pos] == '\n' || s[pos] == '\t' || s[pos] == '\r') {
+			pos++
+		}
+	}
+	var sexpr func() string
+	sexpr = func() string {
+		skip()
+		if pos >= len(s) {
+			return ""
+		}
+		start := pos
+		if s[pos] == '(' {
+			d := 0
+			for pos < len(s) {
+				if s[pos] == '(' {
+					d++
+				}
+				if s[pos] == ')' {
+					d--
+					if d == 0 {
+						pos++
+						break
+					}
+				}
+				pos++
+			}
+			return s[start:pos]
+		}
+		if s[pos] == '|' {
+			pos++
+			for pos < len(s) && s[pos] != '|' {
+				pos++
+			}
+			pos++
+			return s[start:pos]
+		}
+		for pos < len(s) && s[pos] != ' ' && s[pos] != ')' && s[pos] != '\n' {
+			pos++
+		}
+		return s[start:pos]
+	}
+	var out []string
+	for {
+		skip()
+		if pos >= len(s) || s[pos] != '(' {
+			break
+		}
+		pos++ // open pair
+		_ = sexpr()
+		v := sexpr()
+		skip()
+		if pos < len(s) && s[pos] == ')' {
+			pos++
+		}
+		v = strings.Join(strings.Fields(v), " ")
+		if strings.HasPrefix(v, "(- ") && strings.HasSuffix(v, ")") {
+			v = "-" + strings.TrimSpace(v[3:len(v)-1])
+		}
+		out = append(out, v)
+	}
+	return out
+}
+
+
+// relaxQuery removes every top-level assertion that contains a quantifier.
+func relaxQuery(text string, all bool) string {
+	var sb strings.Builder
+	inPath := all
+	for _, l := range strings.Split(text, "\n") {
+		if l == "; --- path ---" {
+			inPath = true
+		}
+		if inPath && strings.HasPrefix(l, "(assert ") && (strings.Contains(l, "(forall ") || strings.Contains(l, "(exists ")) && !strings.HasPrefix(l, "(assert (not ") {
+			continue
+		}
+		sb.WriteString(l)
+		sb.WriteByte('\n')
+	}
+	return sb.String()
 }
